@@ -35,7 +35,9 @@ SPEC = {
         'aioslsk/shares/manager.py': ['SharesManager.create_directory', 'SharesManager.get_download_directory', 'SharesManager.calculate_download_path'],
         'aioslsk/transfer/manager.py': ['TransferManager._download_file', 'TransferManager._calculate_offset', 'TransferManager._initialize_download',
                                         'TransferManager._prepare_download_path'],
-        'aioslsk/transfer/model.py': ['Transfer.__init__', 'TransferDirection', 'Transfer.is_download', 'Transfer.is_upload'],
+        'aioslsk/transfer/model.py': ['Transfer.__init__', 'TransferDirection', 'Transfer.is_download', 'Transfer.is_upload', 'Transfer.reset_local_vars',
+                                      'Transfer.reset_progress_vars'],
+        'aioslsk/transfer/state.py': ['CompleteState', 'AbortedState', 'FailedState', 'IncompleteState'],
         'aioslsk/settings.py': ['SharesSettings'],
         'aioslsk/exceptions.py': ['ConnectionReadError', 'NetworkError', 'AioSlskException'],
     },
